@@ -373,3 +373,56 @@ def scratch_root():
     p = os.path.join(d, "p%d" % os.getpid())
     os.makedirs(p, exist_ok=True)
     return p
+
+
+def harvest_constants(module_names, want):
+    """Constants that the code under test itself carries (module / class attributes, containers, literals compiled into its
+    functions), filtered by `want(value)`.  Like a fuzzer's dictionary taken from the target: special cases are keyed by
+    particular values, and those values are sitting in the code."""
+    import importlib
+    import types
+    found, seen = set(), set()
+
+    def visit(v, depth=0):
+        if depth > 6 or id(v) in seen:
+            return
+        seen.add(id(v))
+        if isinstance(v, (str, bytes, int)) and not isinstance(v, bool):
+            try:
+                if want(v):
+                    found.add(v)
+            except Exception:
+                pass
+        elif isinstance(v, dict):
+            for k, x in list(v.items())[:5000]:
+                visit(k, depth + 1)
+                visit(x, depth + 1)
+        elif isinstance(v, (list, tuple, set, frozenset)):
+            for x in list(v)[:5000]:
+                visit(x, depth + 1)
+        elif isinstance(v, types.CodeType):
+            for x in v.co_consts:
+                visit(x, depth + 1)
+        elif isinstance(v, (types.FunctionType, types.MethodType)):
+            visit(getattr(v, "__code__", None), depth + 1)
+            visit(getattr(v, "__defaults__", None), depth + 1)
+        elif isinstance(v, (classmethod, staticmethod)):
+            visit(v.__func__, depth + 1)
+        elif isinstance(v, type):
+            if getattr(v, "__module__", "") in module_names:
+                for x in list(vars(v).values()):
+                    visit(x, depth + 1)
+    for name in module_names:
+        try:
+            mod = importlib.import_module(name)
+        except Exception:
+            continue
+        for k, x in list(vars(mod).items()):
+            if k.startswith("__"):
+                continue
+            if isinstance(x, types.ModuleType):
+                continue
+            if isinstance(x, (types.FunctionType, type)) and getattr(x, "__module__", name) != name:
+                continue
+            visit(x)
+    return found
